@@ -1,10 +1,162 @@
-"""Setup / self-check: everything the checks need is on disk (offline)."""
+"""Setup / self-check.
+
+  --setup          everything the checks need is on disk (offline) + a short differential run
+  --differential   translator differential check (DESIGN 7.3): the symbolic interpreter is run on random CONCRETE
+                   inputs of the functions under contract and must agree with CPython executing the same source,
+                   including the type of a raised exception.  This is testing of the verifier, not proof.
+"""
 import importlib
+import math
 import os
+import random
 import subprocess
 import sys
+import time
 
 from . import REPO, VERIF
+
+
+def differential(n=150, seed=0, verbose=False):
+    sys.path.insert(0, REPO)
+    from .pyvc.src import Repo, ModuleInfo
+    from .pyvc.ctx import Explorer, Settings, Ctx, PyRaise
+    from .pyvc.interp import Interp
+    from .pyvc.values import Obj, Unsupported
+    from .contracts.registry import registry
+    import a5
+    from a5.core import serialization as ser, cell_info, hex as hx, compact as cp, hilbert as hb
+    from a5.core.origin import origins, quintant_to_segment, segment_to_quintant
+    from .pyvc.contracts import Registry
+    plain = Registry()
+    rng = random.Random(seed)
+    repo = Repo(REPO)
+    specs = ModuleInfo(None, "specs", os.path.join(VERIF, "a5verif", "contracts", "specs.py"))
+
+    def sym_run(qual, args, float_mode="concrete"):
+        ex = Explorer(Settings(float_mode=float_mode))
+        ctx = Ctx(ex, [], 0)
+        it = Interp(ctx, repo, plain, specs)        # no contracts: the bodies themselves are interpreted
+        try:
+            return ("ok", it.call(qual, *args))
+        except PyRaise as e:
+            return ("raise", e.exc)
+
+    def nat_run(fn, args):
+        try:
+            return ("ok", fn(*args))
+        except Exception as e:
+            return ("raise", type(e).__name__)
+
+    def rnd_cell():
+        r = rng.choice([-1, 0, 1, 2, 3, 7, 15, 29, 30, 31])
+        lim = 1 if r < 2 else 4 ** (r - 1)
+        S = rng.choice([0, 0, rng.randrange(max(1, lim)), max(0, lim - 1), lim, lim + 5])
+        return rng.randrange(12), rng.randrange(5), S, r
+
+    def norm(v):
+        if hasattr(v, "_fields"):
+            return ("obj", type(v).__name__, (("first_quintant", v.first_quintant), ("id", v.id)))
+        if isinstance(v, Obj):
+            return ("obj", v.cls, tuple(sorted((k, norm(x)) for k, x in v.attrs.items() if k in ("id", "first_quintant", "k", "offset", "flips"))))
+        if isinstance(v, dict):
+            return tuple(sorted((k, norm(x)) for k, x in v.items()))
+        if isinstance(v, (list, tuple)):
+            return tuple(norm(x) for x in v)
+        if hasattr(v, "_fields"):
+            return ("obj", type(v).__name__, (("first_quintant", v.first_quintant), ("id", v.id)))
+        if hasattr(v, "__dict__") and not callable(v):
+            return ("obj", type(v).__name__, tuple(sorted((k, norm(x)) for k, x in vars(v).items() if k in ("k", "offset", "flips"))))
+        if isinstance(v, float):
+            return round(v, 9)
+        return v
+    cases = 0
+    bad = []
+    t0 = time.time()
+
+    def check(qual, fn, sargs, nargs, fm="concrete"):
+        nonlocal cases
+        cases += 1
+        try:
+            a = sym_run(qual, sargs, fm)
+        except Unsupported as e:
+            bad.append((qual, "UNSUPPORTED on a concrete input: %s" % e))
+            return
+        b = nat_run(fn, nargs)
+        if (a[0], norm(a[1])) != (b[0], norm(b[1])):
+            bad.append((qual, repr(nargs)[:120], "interpreter %r" % (norm(a[1]),), "CPython %r" % (norm(b[1]),)))
+    ids = [0] + ser.cell_to_children(0, 0) + ser.cell_to_children(0, 1)[:20] + ser.cell_to_children(ser.cell_to_children(0, 0)[3], 3)[:30]
+    for _ in range(n):
+        o, g, S, r = rnd_cell()
+        ncell = {"origin": origins[o], "segment": g, "S": S, "resolution": r}
+        ex = Explorer(Settings())
+        ctx = Ctx(ex, [], 0)
+        it0 = Interp(ctx, repo, registry(), specs)
+        so = it0.module_global(repo.module("a5.core.origin"), "origins")
+        scell = {"origin": so[o], "segment": g, "S": S, "resolution": r}
+        check("a5.core.serialization.serialize", ser.serialize, [scell], [ncell])
+        idv = rng.choice(ids) if rng.random() < 0.5 else None
+        if idv is None:
+            try:
+                idv = ser.serialize({"origin": origins[o], "segment": g, "S": S % (1 if r < 2 else 4 ** (r - 1)) if -1 <= r <= 29 else 0,
+                                     "resolution": min(max(r, -1), 29)})
+            except Exception:
+                idv = rng.choice(ids)
+        check("a5.core.serialization.get_resolution", ser.get_resolution, [idv], [idv])
+        check("a5.core.serialization.deserialize", ser.deserialize, [idv], [idv])
+        rr = ser.get_resolution(idv)
+        for a_ in (rr - 1, rng.randrange(-2, 31)):
+            check("a5.core.serialization.cell_to_parent", ser.cell_to_parent, [idv, a_], [idv, a_])
+        b_ = rng.choice([rr, rr + 1, rr + 2, rr - 1, 31])
+        if b_ - rr <= 2:
+            check("a5.core.serialization.cell_to_children", ser.cell_to_children, [idv, b_], [idv, b_])
+        if rr >= 0:
+            check("a5.core.serialization.is_first_child", ser.is_first_child, [idv, rr], [idv, rr])
+            check("a5.core.serialization.get_stride", ser.get_stride, [rr], [rr])
+        a2, b2 = rng.randrange(-2, 32), rng.randrange(-2, 32)
+        check("a5.core.cell_info.get_num_children", cell_info.get_num_children, [a2, b2], [a2, b2])
+        check("a5.core.cell_info.get_num_cells", cell_info.get_num_cells, [a2], [a2])
+        check("a5.core.cell_info.cell_area", cell_info.cell_area, [max(a2, -1)], [max(a2, -1)])
+        v = rng.getrandbits(rng.randrange(1, 65))
+        check("a5.core.hex.u64_to_hex", hx.u64_to_hex, [v], [v])
+        t = ("%x" % v) if rng.random() < 0.5 else ("%X" % v).zfill(rng.randrange(0, 20))
+        check("a5.core.hex.hex_to_u64", hx.hex_to_u64, [t], [t])
+        if hasattr(cp, "_hierarchy_key"):
+            check("a5.core.compact._hierarchy_key", cp._hierarchy_key, [idv], [idv])
+        # small compact / uncompact inputs
+        base = rng.choice(ids[1:13])
+        kids = ser.cell_to_children(base, 1) + ser.cell_to_children(ser.cell_to_children(base, 1)[0], 2)
+        lst = [rng.choice(kids + ids[1:13]) for _ in range(rng.randrange(0, 9))]
+        check("a5.core.compact.compact", cp.compact, [list(lst)], [list(lst)])
+        tt = rng.randrange(0, 4)
+        check("a5.core.compact.uncompact", cp.uncompact, [list(lst[:3]), tt], [list(lst[:3]), tt])
+        # curve functions (concrete floats)
+        h = rng.randrange(1, 12)
+        Sx = rng.randrange(4 ** h)
+        ori = rng.choice(["uv", "vu", "uw", "wu", "vw", "wv"])
+        check("a5.core.hilbert.s_to_anchor", hb.s_to_anchor, [Sx, h, ori], [Sx, h, ori])
+        an = hb.s_to_anchor(Sx, h, ori)
+        ij = (an.offset[0] + 0.3, an.offset[1] + 0.3)
+        check("a5.core.hilbert.ij_to_s", hb.ij_to_s, [ij, h, ori], [ij, h, ori])
+        q = rng.randrange(5)
+        check("a5.core.origin.quintant_to_segment", quintant_to_segment, [q, so[o]], [q, origins[o]])
+        check("a5.core.origin.segment_to_quintant", segment_to_quintant, [q, so[o]], [q, origins[o]])
+    # interval evaluator against CPython floats
+    from .ivc.evalast import FloatEval
+    from .ivc.jets import J
+    from mpmath import iv, mp
+    from a5.projections.authalic import AuthalicProjection
+    A = AuthalicProjection()
+    ev = FloatEval(repo)
+    iv.prec = 80
+    for _ in range(n):
+        phi = rng.uniform(-math.pi / 2, math.pi / 2)
+        for qual, fn in (("a5.projections.authalic.AuthalicProjection.forward", A.forward), ("a5.projections.authalic.AuthalicProjection.inverse", A.inverse)):
+            cases += 1
+            j = ev.call(qual, J.var(iv.mpf([phi, phi])))
+            lo, hi = float(mp.mpf(j.v._mpi_[0])) - j.err, float(mp.mpf(j.v._mpi_[1])) + j.err
+            if not (lo <= fn(phi) <= hi):
+                bad.append((qual, phi, "native %r outside enclosure [%r, %r]" % (fn(phi), lo, hi)))
+    return {"cases": cases, "disagreements": len(bad), "examples": bad[:5], "seconds": round(time.time() - t0, 2)}
 
 
 def main():
@@ -24,6 +176,14 @@ def main():
         print("cannot import a5 under /venv/bin/python: %s" % p.stderr[-300:])
         ok = False
     os.makedirs(os.path.join(VERIF, "evidence"), exist_ok=True)
+    if ok:
+        n = 400 if "--differential" in sys.argv else 40
+        d = differential(n=n, seed=int(os.environ.get("VERIF_SEED", "0") or 0))
+        print("translator differential check: %d cases, %d disagreements in %.1fs" % (d["cases"], d["disagreements"], d["seconds"]))
+        for ex in d["examples"]:
+            print("  DISAGREEMENT %r" % (ex,))
+        if d["disagreements"]:
+            ok = False
     print("setup ok" if ok else "setup FAILED")
     return 0 if ok else 3
 
